@@ -467,7 +467,7 @@ func runC29(c c29Case, r *ev.Rec) error {
 	// Known findings: attribute the violation to a root cause only if the engine result is
 	// exactly what the reference yields with that deviation switched on.
 	sw, canSwap := c29SwapFills(c.Tree)
-	for mask := 1; mask < 8; mask++ {
+	for mask := 2; mask < 8; mask += 2 { // the quantile deviation is fixed in /repo: no longer attributed (bit 0 stays off)
 		qinf, swap, finv := mask&1 != 0, mask&2 != 0, mask&4 != 0
 		if (swap && !canSwap) || (qinf && !c29HasOp(c.Tree, "quantile")) || (finv && !c29HasFill(c.Tree)) {
 			continue
